@@ -1,6 +1,7 @@
 import Model.ProbingBuild
 import Proofs.ProbingBuildOps
 import Proofs.ProbingBuildBigram
+import Proofs.ProbingBuildRep
 import Properties.C03
 /-! C03/C01 — the probing *builder* inside the model (`Model/ProbingBuild.lean` = lm/search_hashed.cc ReadNGrams,
 FindLower, AdjustLower, MarkLower, activate, unigram sign fix, missing-`<unk>` fix-up).
@@ -9,7 +10,7 @@ Status: the executable model is tied entry by entry to the real `ProbingModel`/`
 `probing-structure`, every n-gram and every blank of every generated ARPA) and its result is checked at run time
 against `Table.build a` (`prep` flag of the driver) — on every generated model, blanks included.  Proved here: the
 table-operation layer with its error classes (general), and the complete fold for bigram models.  Not proved:
-`ProbingBuildRepresents` for orders ≥ 3 (middle tables, blank chains). -/
+`ProbingBuildRepresents` for models that need blanks (SRI-pruned; blank chains in `FindLower`/`AdjustLower`). -/
 namespace KV.C03ProbingBuild
 open KV.Arpa KV.Table KV.Score KV.State KV.ProbingLM KV.ProbingBuild
 
@@ -55,7 +56,36 @@ theorem build_bigram_capacity (combine : Nat → Word → Nat) (u0 : List W) (N 
     (inv : Inv2 combine u0 N proc s) (x y : Word) (e : Entry) (hcap : proc.length + 1 ≥ N) :
     addLine combine false 2 s [x, y] e = .error .probingSize := bigram_line_full combine u0 N proc s inv x y e hcap
 
-/-- the full statement (NOT proved for orders ≥ 3): the built structure represents `Table.build a` -/
+/-- **`probing_build_represents_closed`** — every order.  For a loaded ARPA without blanks (`ArpaOK`: well-formed,
+suffix-closed — every lmplz output —, probabilities ≤ 0, vocabulary = unigrams, hallucinated `<unk>` consistent), whose
+lines are in order of n-gram length (as the file format demands), with pairwise distinct chained hashes and each order's
+count below its bucket count: the builder returns `.ok` and the built structure `Represents` `Table.build a` — entries,
+probabilities, back-offs, extends-left sign bits and extends-right bits, under the C20 invariant of every table. -/
+theorem probing_build_represents_closed (combine : Nat → Word → Nat) (a : Arpa) (nWords : Nat) (buckets : List Nat) (um : Rat)
+    (ok : ArpaOK a nWords um)
+    (hsorted : (ngramLines a).Pairwise (fun p q => p.1.length ≤ q.1.length))
+    (hnd : ((ngramLines a).map (fun p => hashOf combine p.1)).Nodup)
+    (hcaps : ∀ m, (linesOf (ngramLines a) m).length < capOf buckets m) :
+    ∃ s Mmid Mlong, build combine false a nWords buckets um = .ok s ∧
+      Represents combine (toPLM false a.order s) (Table.build a) Mmid Mlong :=
+  build_represents_closed combine a nWords buckets um ok hsorted hnd hcaps
+
+/-- **`probing_end_to_end_closed`** — ARPA → built probing structure → every query = ARPA recursion, with no
+`Represents` hypothesis: for models without blanks, `FullScore` over the structure the builder produces returns
+`score a h w` for every state reached by left-to-right scoring and every vocabulary word. -/
+theorem probing_end_to_end_closed (combine : Nat → Word → Nat) (a : Arpa) (nWords : Nat) (buckets : List Nat) (um : Rat)
+    (ok : ArpaOK a nWords um)
+    (hsorted : (ngramLines a).Pairwise (fun p q => p.1.length ≤ q.1.length))
+    (hnd : ((ngramLines a).map (fun p => hashOf combine p.1)).Nodup)
+    (hcaps : ∀ m, (linesOf (ngramLines a) m).length < capOf buckets m)
+    (inj : HashInjective combine (Table.build a))
+    (h : List Word) (st : State) (sf : StateFor a h st) (w : Word) (hw : a.gram [w] ≠ none) :
+    ∃ s, build combine false a nWords buckets um = .ok s ∧
+      (fullScore (KV.ProbingLM.search combine (toPLM false a.order s)) st w).1.prob = score a h w := by
+  obtain ⟨s, Mmid, Mlong, hb, rep⟩ := build_represents_closed combine a nWords buckets um ok hsorted hnd hcaps
+  exact ⟨s, hb, KV.C03.probing_prob a ok.wf (fun _ => false) combine _ Mmid Mlong rep inj h st sf w hw⟩
+
+/-- the full statement (NOT proved for models that need blanks): the built structure represents `Table.build a` -/
 def ProbingBuildRepresents (combine : Nat → Word → Nat) (a : Arpa) (nWords : Nat) (buckets : List Nat) : Prop :=
   ∃ s Mmid Mlong, build combine false a nWords buckets = .ok s ∧
     Represents combine (toPLM false a.order s) (Table.build a) Mmid Mlong
